@@ -37,7 +37,7 @@ func aUnitAny(fp.Unit) any { return "unit" }
 
 // ---- builders ----------------------------------------------------------------------------
 
-const aRuleBuilder = "builder of arity N = prefix+M: the first `prefix` (0..2) operands are fed with the primitive ApOption/ApTry, the method under test supplies operand prefix+1 of type MonadChainM / ApplicativeFunctorM (constant, M value, supplier, or a function of the previous value / of the HList of previous values), the remaining M-1 operands are fed with the primitive again; operands drawn per constructor with failure patterns none/one/two/iid, table functions with failing rows; the final M[R] is compared with do-notation over the harness' own unit/bind ending in unit(h(x1..xN)), h the position-sensitive hash; non-trivial iff an operand (or the method's operand/table) is not a success; distinct by printed (method, prefix, operands, tables)"
+const aRuleBuilder = "builder of arity N = prefix+M: the first `prefix` (0..2) operands are fed with the primitive ApOption/ApTry, the method under test supplies operand prefix+1 of type MonadChainM / ApplicativeFunctorM (constant, M value, supplier, or a function of the previous value / of the HList of previous values), the remaining M-1 operands are fed with the primitive again; operands drawn per constructor with failure patterns none/one/two/iid, table functions with failing rows; the final M[R] is compared with do-notation over the harness' own unit/bind ending in unit(h(x1..xN)), h the position-sensitive hash; non-trivial iff an operand (or the method's operand/table) is not a success, or when the expression has no fallible operand at all (arity 1 fed with a constant: every case counts); distinct by printed (method, prefix, operands, tables)"
 
 // aX: the draws specific to the method under test
 type aX struct {
@@ -62,6 +62,14 @@ func (c *aCase) drawX(meth string) aX {
 		panic("unknown builder method " + meth)
 	}
 	return x
+}
+
+// noFallible marks a builder case without any fallible operand (arity 1 fed with a
+// constant) as counting, as stated in aRuleBuilder.
+func (c *aCase) noFallible(meth string, ds []aVal) {
+	if len(ds) == 0 && (meth == "Ap" || meth == "ApFunc") {
+		c.nt = true
+	}
 }
 
 // aBuilderRef: x1..xk <- ds[0..k) ; x(k+1) <- the method's operand ; rest <- ds[k..) ; unit(h(xs))
